@@ -810,7 +810,7 @@ func (c *poolComp) dump() string {
 			nb = append(nb, fmt.Sprintf("%s=%s/%s", id.name, Tok(string(b.Account)), b.Credit.String()))
 		}
 	}
-	for _, w := range walletIdents {
+	for _, w := range append(append([]*identity{}, walletIdents...), lcWalletIdents...) {
 		b, _ := c.st.GetAccountBalance(store.Account(w.id))
 		ab = append(ab, fmt.Sprintf("%s=%s/%s", w.name, Tok(string(b.Account)), b.Credit.String()))
 		p := c.paid[w.id]
